@@ -259,6 +259,27 @@ def memo_tables(ctx, fn, ps):
     return out
 
 
+PURE_BUILTINS = {'sorted', 'reversed', 'list', 'tuple', 'set', 'frozenset', 'dict', 'sum', 'min', 'max', 'abs', 'round', 'len', 'zip', 'map', 'filter', 'enumerate', 'any', 'all'}
+PURE_STR_METHODS = {'strip', 'lstrip', 'rstrip', 'upper', 'lower', 'replace', 'format', 'title', 'join', 'split'}
+
+
+def discarded_results(ctx, rule, prefixes, what):
+    """A statement that calls a function which only RETURNS its result (sorted(xs), reversed(xs), s.strip(), ...) and throws the result away does nothing:
+    whoever wrote it meant the in-place form (xs.sort()) or forgot the assignment - the data keeps its old order/content."""
+    n = 0
+    for fn in ctx.M.all_funcs():
+        if not any(fn.path.startswith(p_) for p_ in prefixes):
+            continue
+        for s_ in ast.walk(fn.node):
+            if isinstance(s_, ast.Expr) and isinstance(s_.value, ast.Call):
+                f_ = s_.value.func
+                n += 1
+                if isinstance(f_, ast.Name) and f_.id in PURE_BUILTINS and ctx.M.resolve_name(fn.mod, f_.id) is None:
+                    ctx.violation(rule, what, fn.site(s_), 'the result of %s(...) is discarded in %s: %s returns a new object and leaves its argument as it was' % (f_.id, fn.qn, f_.id),
+                                  key='%s|discarded|%s|%s' % (rule, fn.qn, f_.id))
+    ctx.holds(rule, what + ' (no discarded result of a value-returning builtin among %d call statements)' % n, None)
+
+
 def class_level_table(M, cls, fld):
     """<fld> is declared in the class body (of cls or a base) and no constructor rebinds it per instance: one object shared by every instance"""
     if not any(fld in k.class_attrs for k in cls.mro()):
